@@ -75,6 +75,19 @@ def main():
                     bad += 1
                     if bad <= 8:
                         print(f"  FAIL {kind}: {label}: at {p}, then at {q}, then at {p} again: got {got}, a fresh copy gives {want}")
+    # building a larger expression on top of a node must not disturb the node
+    from smoothmath.expression import Variable, Minus, Divide, Power, Add, Multiply, NthPower, Negation
+    for outer in (Minus, Divide, Power, Add, Multiply):
+        x, y = Variable("x"), Variable("y")
+        u = NthPower(Negation(x), 2)
+        before = (outcome(lambda: u.at(3.0)), outcome(lambda: sm.Derivative(u).at(3.0)), repr(u), sorted(u._variable_names))
+        outer(u, y)
+        outer(y, u)
+        after = (outcome(lambda: u.at(3.0)), outcome(lambda: sm.Derivative(u).at(3.0)), repr(u), sorted(u._variable_names))
+        if before != after:
+            bad += 1
+            if bad <= 8:
+                print(f"  FAIL building {outer.__name__}(u, y) changed the operand u: before {before}, after {after}")
     # a Partial object queried before and after as_expression()
     for kind in kinds:
         for p in points:
